@@ -10,6 +10,7 @@ from __future__ import annotations
 import itertools
 import os
 
+from hypothesis import assume
 from hypothesis import strategies as st
 
 from vlib import c0607_common as cm
@@ -371,6 +372,22 @@ def random_pair(draw):
     return {"a": a, "b": b, "kind": kind + ("/swapped" if swap else ""), "note": note, "sparse": sparse, "cfg": cfg, "names": names, "edge_attribute": edge_attribute}
 
 
+@st.composite
+def large_subpattern_pair(draw):
+    """Low-entropy hosts with 6-9 atoms (mostly one element, rings allowed) and a connected sub-pattern of 4-6 atoms,
+    relabelled: several pattern atoms share their base label and compete for the same host atoms - the shape on
+    which a containment pre-filter that decides by a greedy assignment goes wrong."""
+    na = cm.node_attrs_st(elements=("C", "C", "C", "O"), charges=(0,), hcounts=(0,), hcount_optional=False, aromatic=(False,))
+    ea = cm.edge_attrs_st(ring=None)
+    a = draw(graph_gen.graphs(min_nodes=6, max_nodes=9, node_attrs=na, edge_attrs=ea, connected=True, id_pool=40, extra_edge_p=draw(st.sampled_from([0.1, 0.3]))))
+    b, dropped = draw(cm.sub_pattern(a, min_nodes=4, drop_edges=True))
+    assume(4 <= len(b["nodes"]) < len(a["nodes"]))
+    b, _ = draw(graph_gen.relabelled(b, id_pool=60))
+    cfg = {"node_attrs": ["element", "charge"], "edge_attrs": draw(st.sampled_from(EDGE_SEL)), "max_mappings": draw(st.sampled_from([1, 5]))}
+    return {"a": a, "b": b, "kind": "large-sub", "note": f"low-entropy host, sub-pattern of {len(b['nodes'])} atoms, {dropped} edge(s) dropped", "sparse": False, "cfg": cfg,
+            "names": ["element", "charge"], "edge_attribute": "order"}
+
+
 def strat_pairs(tier):
     return random_pair()
 
@@ -580,6 +597,14 @@ SUBS = [
         examples={"quick": 14000, "thorough": 100000},
         shards={"quick": 16, "thorough": 16},
         doc="(i)-(iv) on copies / one-edit neighbours / hcount shifts / sub-patterns / independent graphs <= 8 nodes",
+    ),
+    Sub(
+        "large_subpatterns",
+        body_pair_random,
+        strategy=lambda tier: large_subpattern_pair(),
+        examples={"quick": 6000, "thorough": 60000},
+        shards={"quick": 16, "thorough": 16},
+        doc="(i)-(iv) on low-entropy hosts of 6-9 atoms with connected sub-patterns of 4-6 atoms (pre-filters on vs off, embeddings found)",
     ),
     Sub(
         "relabelling",
